@@ -45,6 +45,9 @@ def batch_of(cfg):
     jax, jnp, np, eqx, jinns = jx()
     from jinns.data._Batchs import ODEBatch, PDEStatioBatch, PDENonStatioBatch
     obs = None
+    xo = cfg.get("extra_obs")
+    if xo:      # an observation part next to the term under test: its observed parameter rows must stay inside the observation term
+        obs = {"pinn_in": jnp.array(xo["inputs"]), "val": jnp.array(xo["vals"]), "eq_params": {"a": jnp.array(xo["arows"])[:, None]}}
     if cfg["what"] == "obs":
         eqp = {"a": jnp.array(cfg["arows"])[:, None]} if cfg.get("arows") else {}
         obs = {"pinn_in": jnp.array(cfg["inputs"]), "val": jnp.array(cfg["vals"]), "eq_params": eqp}
@@ -82,6 +85,10 @@ def gen(rng, what, kind):
         cfg.update(inputs=[[dy(rng) for _ in range(nv)] for _ in range(n)], vals=[[float(rng.randint(-2, 2)) for _ in range(nobs)] for _ in range(n)],
                    arows=[dy(rng) for _ in range(n)] if rng.random() < 0.6 else None)
         cfg["w"] = [rng.randint(0, 4) / 2 for _ in range(nobs)] if rng.random() < 0.5 else rng.randint(1, 6) / 2
+    if what != "obs" and rng.random() < 0.5:
+        n = rng.randint(1, 4)
+        cfg["extra_obs"] = dict(inputs=[[dy(rng) for _ in range(nv)] for _ in range(n)], vals=[[float(rng.randint(-2, 2)) for _ in range(nout)] for _ in range(n)],
+                                arows=[dy(rng, 4, 9) for _ in range(n)])
     return cfg
 
 
@@ -89,10 +96,14 @@ def term_name(cfg):
     return {"ic": "initial_condition", "norm": "norm_loss", "obs": "observations"}[cfg["what"]]
 
 
-def evaluate(cfg):
+def evaluate(cfg, both=False):
+    """the term, evaluated twice on the same objects (the second value is the one compared with the model)"""
     u, P, L = build(cfg)
-    tot, terms = L.evaluate(P, batch_of(cfg))
-    return float(terms[term_name(cfg)])
+    b = batch_of(cfg)
+    tot, terms = L.evaluate(P, b)
+    tot2, terms2 = L.evaluate(P, b)
+    v1, v2 = float(terms[term_name(cfg)]), float(terms2[term_name(cfg)])
+    return (v1, v2) if both else v2
 
 
 def case_term(cid, cfg, obs):
@@ -143,13 +154,17 @@ def generate(tier, seed, casedir, variant):
         for _ in range(per):
             cfg = gen(rng, what, kind)
             try:
-                obs = evaluate(cfg)
+                first, obs = evaluate(cfg, both=True)
+                if first != obs:
+                    viol.append({"detail": f"{what}/{kind}: the term is {first} on the first evaluation and {obs} on the second one with the same arguments", "case": jsonable(cfg)})
             except Exception as ex:
                 viol.append({"detail": f"{what}/{kind}: evaluate raised {type(ex).__name__}: {str(ex)[:200]}", "case": jsonable(cfg)})
                 continue
             cases.append(case_term(cid, cfg, obs)); meta[cid] = jsonable(cfg)
             k = f"{what}_{kind}"
             dist[k] = dist.get(k, 0) + 1
+            if cfg.get("extra_obs"):
+                dist["with_an_observation_part_carrying_parameter_rows"] = dist.get("with_an_observation_part_carrying_parameter_rows", 0) + 1
             if what == "obs" and cfg.get("arows"):
                 dist["obs_with_observed_parameter_rows"] = dist.get("obs_with_observed_parameter_rows", 0) + 1
             if obs != 0.0:
@@ -159,12 +174,13 @@ def generate(tier, seed, casedir, variant):
             cid += 1
     write_cases(casedir, "C05", "R_C05", variant, cases, chunk=100)
     return dict(meta=meta, oracle_violations=viol, evaluations=len(cases), distinct_nontrivial=len(nontrivial), samples=samples, distribution=dist,
-                rule="per (term, loss kind): random polynomial networks with 1..3 outputs whose output adds the equation parameter a, dyadic points, scalar and per-component weights, solution / observation slices, observed parameter rows present or not, initial-condition functions returning an array or a scalar; non-trivial = the term is non-zero",
+                rule="per (term, loss kind): random polynomial networks with 1..3 outputs whose output adds the equation parameter a, dyadic points, scalar and per-component weights, solution / observation slices, observed parameter rows present or not, initial-condition functions returning an array or a scalar, half of the initial-condition / normalisation cases next to an observation part whose observed parameter rows must not reach them, every loss evaluated twice on the same objects; non-trivial = the term is non-zero",
                 oracle_checks=0)
 
 
 def replay(rep, casedir, variant):
     cfg = unjson(rep["case"])
-    obs = evaluate(cfg)
+    first, obs = evaluate(cfg, both=True)
+    ov = [] if first == obs else [{"detail": f"the term is {first} on the first evaluation and {obs} on the second one", "case": rep["case"]}]
     write_cases(casedir, "C05", "R_C05", variant, [case_term(0, cfg, obs)])
-    return dict(meta={0: rep["case"]}, oracle_violations=[], evaluations=1, distinct_nontrivial=1, rule="replay", samples=[rep["case"]])
+    return dict(meta={0: rep["case"]}, oracle_violations=ov, evaluations=1, distinct_nontrivial=1, rule="replay", samples=[rep["case"]])
